@@ -39,6 +39,7 @@ UNIT_HARNESS = {
     's2pdu': ('io_harness.rs', 's2pdu'),
     'auenc': ('io_harness.rs', 'auenc'),
     'tcp': ('io_harness.rs', 'tcp'),
+    'wpcr': ('io_harness.rs', 'wpcr'),
 }
 
 
